@@ -4,7 +4,7 @@ import itertools
 from ..core import rng_for, rand_digits, M64, ndig
 from ..oracles import cmd_bytes, cmd_frombytes, cmd_fromsbytes, cmd_new, cmd_iter
 
-THOROUGH_SEEDS = 3   # the thorough tier repeats its staged workload over this many derived seeds
+THOROUGH_SEEDS = 2   # the thorough tier repeats its staged workload over this many derived seeds
 RULE = ('export: 0, values whose top native digit has a zero / non-zero upper half, +-2^(8k-1) and +-(2^(8k-1) +- 1) for k=1..24 '
         '(signed length rule and its single exception), negative powers of two, multi-digit values with zero lower digits; import: '
         'empty, all-zero, odd u32 counts, 0x00../0xff.. padding of 0..9 bytes, both endiannesses, ToBytes/FromBytes; iterators: '
